@@ -213,6 +213,10 @@ func (cfgmaps *ConfigMaps) Delete(key string) (rls *rspb.Release, err error) {
 	}
 	// delete the release
 	if err = cfgmaps.impl.Delete(context.Background(), key, metav1.DeleteOptions{}); err != nil {
+		if apierrors.IsNotFound(err) {
+			// the release was deleted by someone else after the existence check
+			return nil, ErrReleaseNotFound
+		}
 		return rls, err
 	}
 	return rls, nil
